@@ -21,7 +21,7 @@ pub fn def() -> PropDef {
 }
 
 fn streams(t: Tier) -> Vec<StreamDef> {
-    vec![st("grid", t.n(39 * 16 * 8, 39 * 16 * 64, 80, 39 * 16 * 2), true), st("random", t.n(30_000, 1_500_000, 60, 8_000), false), st("identity", t.n(6_000, 200_000, 30, 2_000), false)]
+    vec![st("grid", t.n(39 * 16 * 8, 39 * 16 * 64, 80, 39 * 16 * 2), true), st("random", t.n(30_000, 1_500_000, 60, 8_000), false), st("identity", t.n(6_000, 200_000, 30, 2_000), false), st("feedback", t.n(6_000, 200_000, 30, 2_000), false)]
 }
 
 fn floors(t: Tier) -> Vec<(String, u64)> {
@@ -109,6 +109,49 @@ pub fn random_case(r: &mut crate::gen::Rng) -> HideCase {
     let mut rv = [0u8; 4];
     rv.copy_from_slice(&r.bytes(4));
     HideCase { a, secret: val::secret(r), rv, lp, ap }
+}
+
+/// G-feedback: a chosen plaintext that depends on its own ciphertext. One or two 16-octet blocks
+/// of the payload (or of the length padding) are set to a *ciphertext* block 1..3 positions
+/// earlier, or to an earlier plaintext block, as computed by the reference cipher. Since block j
+/// of the plaintext only influences ciphertext blocks j.., the earlier blocks stay what they
+/// were. Any shortcut that recognises "a block seen before" (memoised digests, run-length tricks)
+/// meets its trigger here; independent random data never does (2^-128).
+pub fn feedback_case(r: &mut crate::gen::Rng) -> HideCase {
+    let attr = *r.pick(&[11u16, 7, 26, 27, 28, 33, 37]);
+    let nblocks = r.range(3, 9) as usize;
+    let body_len = 16 * nblocks - 2 + r.below(16) as usize;
+    let mut body = r.bytes(body_len);
+    let split = match r.below(3) {
+        0 => body_len,
+        1 => r.range(1, body_len as u64) as usize,
+        _ => r.range(1, 20) as usize,
+    };
+    let secret = {
+        let s = val::secret(r);
+        if s.len() > 300 { s[..300].to_vec() } else { s }
+    };
+    let mut rv = [0u8; 4];
+    rv.copy_from_slice(&r.bytes(4));
+    let mut ap = [0u8; 16];
+    ap.copy_from_slice(&r.bytes(16));
+    let mut js: Vec<usize> = (0..r.range(1, 2)).map(|_| r.range(1, nblocks as u64 - 1) as usize).collect();
+    js.sort_unstable();
+    js.dedup();
+    for j in js {
+        let cipher = crate::spec::hide::hide(attr, &body[..split], &secret, &rv, &body[split..], &ap);
+        let d = (r.range(1, 3) as usize).min(j);
+        let src: Vec<u8> = if r.chance(3, 4) {
+            cipher[16 * (j - d)..16 * (j - d) + 16].to_vec()
+        } else {
+            // an earlier plaintext block (block 0 starts with the two length octets)
+            let plain = crate::spec::hide::plaintext(&body[..split], &body[split..], &ap);
+            plain[16 * (j - d)..16 * (j - d) + 16].to_vec()
+        };
+        body[16 * j - 2..16 * j + 14].copy_from_slice(&src);
+    }
+    let lp = body[split..].to_vec();
+    HideCase { a: SAvp { attr, hidden: false, body: SBody::Bytes(body[..split].to_vec()) }, secret, rv, lp, ap }
 }
 
 pub fn judge(ctx: &mut Ctx, c: &HideCase) {
@@ -201,6 +244,11 @@ fn run(ctx: &mut Ctx) {
         }
         "random" => {
             let c = random_case(&mut ctx.rng);
+            judge(ctx, &c);
+        }
+        "feedback" => {
+            let c = feedback_case(&mut ctx.rng);
+            ctx.rep.bucket("feedback.cases");
             judge(ctx, &c);
         }
         "identity" => {
